@@ -21,7 +21,7 @@ structure ParamDesc where
   deriving DecidableEq, Repr
 
 /-- acceptance by the parameter type's `Deserialize` impl (external serde behaviour, by tag):
-0 any value, 1 u64, 2 string, 3 bool, 4 array, 5 i64 (as i32-range-free integer), 6 object -/
+0 any value, 1 u64, 2 string, 3 bool, 4 array, 5 i64 (as i32-range-free integer), 6 object, 7 i32 -/
 def accepts (ty : Nat) (raw : Text) : Bool :=
   if ty == 1 then (decodeU64 raw).isSome
   else if ty == 2 then (decodeString raw).isSome
@@ -32,6 +32,7 @@ def accepts (ty : Nat) (raw : Text) : Bool :=
      | 45 :: r => (match decodeNat r with | some n => n != 0 && n ≤ 9223372036854775808 | none => false)
      | _ => (match decodeNat raw with | some n => n < 9223372036854775808 | none => false))
   else if ty == 6 then (members raw).isSome
+  else if ty == 7 then (decodeI32 raw).isSome
   else true
 
 /-- typed decoder of a parameter: the raw text if its type accepts it -/
